@@ -198,6 +198,11 @@ def _translate_metadata_to_ds9(region, shape):
     if fill is not None:
         meta['fill'] = int(fill)
 
+    # DS9 writes the include flag as 0/1 (a boolean would not be read back)
+    include = meta.pop('include', None)
+    if include is not None:
+        meta['include'] = int(bool(include))
+
     if 'text' in meta:
         meta['text'] = f'{{{meta["text"]}}}'
 
